@@ -632,3 +632,252 @@ def inline_new_constants(asts, ref):
             done.append({"module": rel, "constants": sorted(local), "uses_replaced": count[0]})
             _relink(mod, rel)
     return done
+
+
+# ---------------------------------------------------------------------------------------------------------------------
+
+def _unrollable(st):
+    if not isinstance(st, ast.For) or st.orelse or not isinstance(st.iter, (ast.Tuple, ast.List)):
+        return False
+    if not (1 <= len(st.iter.elts) <= 8) or any(isinstance(e, ast.Starred) for e in st.iter.elts):
+        return False
+    if isinstance(st.target, ast.Name):
+        if not all(_simple(e) for e in st.iter.elts):
+            return False
+        names = {st.target.id}
+    elif isinstance(st.target, ast.Tuple) and all(isinstance(t, ast.Name) for t in st.target.elts):
+        for e in st.iter.elts:
+            if not (isinstance(e, (ast.Tuple, ast.List)) and len(e.elts) == len(st.target.elts) and all(_simple(x) for x in e.elts)):
+                return False
+        names = {t.id for t in st.target.elts}
+    else:
+        return False
+    for b in st.body:
+        for n in ast.walk(b):
+            if isinstance(n, (ast.Break, ast.Continue, ast.FunctionDef, ast.AsyncFunctionDef, ast.Lambda, ast.ClassDef)):
+                return False
+            if isinstance(n, ast.Name) and n.id in names and isinstance(n.ctx, (ast.Store, ast.Del)):
+                return False
+    return True
+
+
+def unroll_literal_loops(asts, ref):
+    """`for x in (a, b, c): body` over a literal display of simple expressions, in functions that differ from the
+    reference: replaced by body[x:=a]; body[x:=b]; body[x:=c] (the loop variable must not be used after the loop)."""
+    from .canon import sig_of
+    done = []
+    if not ref:
+        return done
+    for rel, mod in asts.items():
+        runits = ref.get(rel)
+        if runits is None:
+            continue
+        changed = False
+        for k, fn in _units(mod).items():
+            if k[0] not in ("meth", "fn"):
+                continue
+            r = runits.get("|".join(k))
+            if r is not None and r[0] == sig_of(fn).shape:
+                continue
+            n = 0
+            again = True
+            while again:
+                again = False
+                for lst in _stmt_lists(fn):
+                    for i, st in enumerate(lst):
+                        if _unrollable(st):
+                            tnames = [st.target.id] if isinstance(st.target, ast.Name) else [t.id for t in st.target.elts]
+                            # the loop variable is dead after the loop
+                            used_later = any(isinstance(x, ast.Name) and x.id in tnames for later in lst[i + 1:] for x in ast.walk(later))
+                            if used_later:
+                                continue
+                            new = []
+                            for e in st.iter.elts:
+                                vals = [e] if isinstance(st.target, ast.Name) else list(e.elts)
+                                m = dict(zip(tnames, vals))
+                                for b in st.body:
+                                    nb = _Subst(m).visit(copy.deepcopy(b))
+                                    ast.fix_missing_locations(nb)
+                                    new.append(nb)
+                            lst[i:i + 1] = new
+                            n += 1
+                            again = True
+                            break
+                    if again:
+                        break
+            if n:
+                changed = True
+                done.append({"function": "%s:%s" % (rel, ".".join(k[1:])), "literal_loops_unrolled": n})
+        if changed:
+            _relink(mod, rel)
+    return done
+
+
+# ---------------------------------------------------------------------------------------------------------------------
+# idiom normalisation (functions that differ from the reference only): each rewrite replaces an idiom by an
+# equivalent one the rules are written for.
+
+def _same(a, b):
+    return ast.dump(a) == ast.dump(b)
+
+
+def _touches(stmts, expr):
+    """do the statements mention the object `expr` (conservatively: any occurrence of the same expression)?"""
+    d = ast.dump(expr)
+    for st in stmts:
+        for n in ast.walk(st):
+            if isinstance(n, (ast.Name, ast.Attribute, ast.Subscript)) and ast.dump(n).replace("Store()", "Load()").replace("Del()", "Load()") == d:
+                return True
+            if isinstance(n, ast.Call):
+                return True          # a call may do anything to the container
+    return False
+
+
+def _load(e):
+    e = copy.deepcopy(e)
+    for n in ast.walk(e):
+        if hasattr(n, "ctx"):
+            n.ctx = ast.Load()
+    return e
+
+
+def _norm_block(lst, fn):
+    """one pass over a statement list; returns number of rewrites"""
+    n = 0
+    i = 0
+    while i < len(lst):
+        st = lst[i]
+        # self.a = self.a + k   ->   self.a += k
+        if isinstance(st, ast.Assign) and len(st.targets) == 1 and isinstance(st.targets[0], ast.Attribute) \
+                and isinstance(st.value, ast.BinOp) and isinstance(st.value.op, (ast.Add, ast.Sub)):
+            t = st.targets[0]
+            l = st.value.left
+            src = None
+            if _same(_load(t), l):
+                src = "direct"
+            elif isinstance(l, ast.Name):
+                # v = self.a ... self.a = v + k   with v bound once, to self.a, earlier in this block, no write to self.a between
+                defs = [s for s in lst[:i] if isinstance(s, ast.Assign) and len(s.targets) == 1
+                        and isinstance(s.targets[0], ast.Name) and s.targets[0].id == l.id]
+                alldefs = [x for x in ast.walk(fn) if isinstance(x, ast.Name) and x.id == l.id and isinstance(x.ctx, ast.Store)]
+                if len(defs) == 1 and len(alldefs) == 1 and _same(defs[0].value, _load(t)):
+                    j = lst.index(defs[0])
+                    between = lst[j + 1:i]
+                    if not any(isinstance(x, ast.Attribute) and isinstance(x.ctx, ast.Store) and _same(_load(x), _load(t))
+                               for b in between for x in ast.walk(b)):
+                        src = "via-local"
+            if src:
+                new = ast.AugAssign(target=copy.deepcopy(t), op=st.value.op, value=st.value.right)
+                ast.copy_location(new, st)
+                ast.fix_missing_locations(new)
+                lst[i] = new
+                n += 1
+                i += 1
+                continue
+        # v = d[k] ... del d[k]   ->   v = d.pop(k)
+        if isinstance(st, ast.Assign) and len(st.targets) == 1 and isinstance(st.targets[0], ast.Name) \
+                and isinstance(st.value, ast.Subscript) and not isinstance(st.value.slice, ast.Slice):
+            for j in range(i + 1, min(i + 4, len(lst))):
+                d = lst[j]
+                if isinstance(d, ast.Delete) and len(d.targets) == 1 and _same(_load(d.targets[0]), st.value):
+                    between = lst[i + 1:j]
+                    if not _touches(between, st.value.value):
+                        call = ast.Call(func=ast.Attribute(value=copy.deepcopy(st.value.value), attr="pop", ctx=ast.Load()),
+                                        args=[copy.deepcopy(st.value.slice)], keywords=[])
+                        st.value = call
+                        ast.fix_missing_locations(st)
+                        del lst[j]
+                        n += 1
+                    break
+        # if k in d: del d[k]   ->   d.pop(k, None)
+        if isinstance(st, ast.If) and not st.orelse and len(st.body) == 1 and isinstance(st.body[0], ast.Delete) \
+                and isinstance(st.test, ast.Compare) and len(st.test.ops) == 1 and isinstance(st.test.ops[0], ast.In):
+            d = st.body[0]
+            if len(d.targets) == 1 and isinstance(d.targets[0], ast.Subscript) and _same(_load(d.targets[0].value), st.test.comparators[0]) \
+                    and _same(_load(d.targets[0].slice), st.test.left):
+                call = ast.Expr(value=ast.Call(func=ast.Attribute(value=copy.deepcopy(st.test.comparators[0]), attr="pop", ctx=ast.Load()),
+                                               args=[copy.deepcopy(st.test.left), ast.Constant(value=None)], keywords=[]))
+                ast.copy_location(call, st)
+                ast.fix_missing_locations(call)
+                lst[i] = call
+                n += 1
+        # while True: if not c: break; body   ->   while c: body
+        if isinstance(st, ast.While) and isinstance(st.test, ast.Constant) and st.test.value is True and not st.orelse and st.body:
+            first = st.body[0]
+            cond = None
+            if isinstance(first, ast.If) and len(first.body) == 1 and isinstance(first.body[0], ast.Break) and not first.orelse:
+                cond = ast.UnaryOp(op=ast.Not(), operand=first.test)
+                if isinstance(first.test, ast.UnaryOp) and isinstance(first.test.op, ast.Not):
+                    cond = first.test.operand
+                elif isinstance(first.test, ast.Compare) and len(first.test.ops) == 1 and isinstance(first.test.ops[0], (ast.NotIn, ast.In, ast.Is, ast.IsNot, ast.Eq, ast.NotEq)):
+                    flip = {ast.NotIn: ast.In, ast.In: ast.NotIn, ast.Is: ast.IsNot, ast.IsNot: ast.Is, ast.Eq: ast.NotEq, ast.NotEq: ast.Eq}
+                    cond = ast.Compare(left=first.test.left, ops=[flip[type(first.test.ops[0])]()], comparators=first.test.comparators)
+                rest = st.body[1:]
+            elif isinstance(first, ast.If) and first.orelse and len(first.orelse) == 1 and isinstance(first.orelse[0], ast.Break) \
+                    and len(st.body) == 1:
+                cond = first.test
+                rest = first.body
+            if cond is not None and rest and not any(isinstance(x, ast.Break) and _loop_of(x, st) for b in rest for x in ast.walk(b)):
+                st.test = cond
+                st.body = rest
+                ast.fix_missing_locations(st)
+                n += 1
+        # [f(x) for x in xs]  as a statement   ->   for x in xs: f(x)
+        if isinstance(st, ast.Expr) and isinstance(st.value, ast.ListComp) and len(st.value.generators) == 1 \
+                and not st.value.generators[0].is_async:
+            gen = st.value.generators[0]
+            body = [ast.Expr(value=st.value.elt)]
+            for cond in reversed(gen.ifs):
+                body = [ast.If(test=cond, body=body, orelse=[])]
+            tgt = copy.deepcopy(gen.target)
+            for x in ast.walk(tgt):
+                if hasattr(x, "ctx"):
+                    x.ctx = ast.Store()
+            new = ast.For(target=tgt, iter=gen.iter, body=body, orelse=[])
+            ast.copy_location(new, st)
+            ast.fix_missing_locations(new)
+            lst[i] = new
+            n += 1
+        i += 1
+    return n
+
+
+def _loop_of(brk, loop):
+    """is `brk` a break of `loop` itself (not of a nested loop)?"""
+    p = getattr(brk, "_parent", None)
+    while p is not None and p is not loop:
+        if isinstance(p, (ast.For, ast.While, ast.AsyncFor)):
+            return False
+        p = getattr(p, "_parent", None)
+    return True
+
+
+def normalize_idioms(asts, ref):
+    from .canon import sig_of
+    done = []
+    if not ref:
+        return done
+    for rel, mod in asts.items():
+        runits = ref.get(rel)
+        if runits is None:
+            continue
+        changed = False
+        for k, fn in _units(mod).items():
+            if k[0] not in ("meth", "fn"):
+                continue
+            r = runits.get("|".join(k))
+            if r is not None and r[0] == sig_of(fn).shape:
+                continue
+            n = 0
+            for _ in range(3):
+                _relink(mod, rel)
+                m = sum(_norm_block(lst, fn) for lst in _stmt_lists(fn))
+                n += m
+                if not m:
+                    break
+            if n:
+                changed = True
+                done.append({"function": "%s:%s" % (rel, ".".join(k[1:])), "idioms_normalised": n})
+        if changed:
+            _relink(mod, rel)
+    return done
